@@ -24,6 +24,10 @@ def map_history(rng, nops=None):
     nm = r.range(1, 3)
     maps = ["m%d" % i for i in range(nm)]
     groups = r.sample(KEYS_EQUAL_GROUPS, r.range(3, 7))
+    if "KEYS_EXTRA_GROUPS" in globals() and r.chance(50):
+        # huge and infinite numbers, permutations of one another, repeated-element pairs: distinct keys whose hashes are
+        # likely to be related
+        groups = groups[:3] + r.sample(KEYS_EXTRA_GROUPS, r.range(3, 6))
     for m in maps:
         if r.chance(50):
             ents = []
@@ -389,3 +393,47 @@ def map_size_programs(rng):
              "for i in 0..%d { m.insert(\"s${i}\", i); }" % n, "print(m.len());", "print(m.get(\"s%d\"));" % (n - 1)]
         out.append(("mapgrow/%d" % n, "\n".join(L) + "\n"))
     return out
+
+
+def iter_progress_program(rng):
+    """iterators that have moved on before collect / reduce / a second loop takes over (after explicit next() calls, after a
+    loop left by break, after an earlier collect), for every kind of iterator; ranges whose bounds lie around 2^53 and 2^63"""
+    r = rng
+    L = [USER_ITERS]
+    srcs = ["[10, 20, 30, 40, 50]", "(\"a\", \"b\", \"c\", \"d\")", "0..6", "6..0", "\"h\u00e9llo\"", "Count.new(5)", "[1, 2, 3, 4].iter().map(|v| v * 2)",
+            "(0..8).iter().filter(|v| v % 2 == 0)", "mk_fieldnext(4)"]
+    for _ in range(r.range(2, 5)):
+        src = r.choice(srcs)
+        k = r.below(4)
+        L.append("{ var it = (%s).iter();" % src)
+        if k == 0:
+            L.append("  print(it.next()); print(it.next());")
+        elif k == 1:
+            L.append("  for x in it { if x == %s { break; } }" % r.choice(["20", "\"b\"", "2", "4", "\"l\"", "6"]))
+        elif k == 2:
+            L.append("  print(it.collect());")
+        else:
+            L.append("  var n = 0; for x in it { n = n + 1; if n == 3 { break; } }")
+        end = r.below(4)
+        if end == 0:
+            L.append("  print(it.collect()); print(it.collect()); }")
+        elif end == 1:
+            L.append("  print(it.reduce(|a, v| { a.push(v); return a; }, [\"rest\"])); }")
+        elif end == 2:
+            L.append("  print(it.map(|v| [v]).collect()); print(type(it.next()) == StopIter); }")
+        else:
+            L.append("  for x in it { print([\"rest\", x]); } print(it.collect()); }")
+    for _ in range(r.range(1, 3)):
+        base = r.choice(["9007199254740990", "9007199254740992", "-9007199254740996", "4503599627370494", "9223372036854775800", "-9223372036854775806"])
+        d = r.choice(["4", "6", "-5"])
+        L.append("{ var n = 0; var last = nil; for x in %s..(%s + %s) { n = n + 1; last = x; if n > 20 { break; } } print([n, last]); }" % (base, base, d))
+        L.append("{ var it = (%s..(%s + 3)).iter().map(|v| v - %s); var got = []; for k in 0..6 { var e = it.next(); if type(e) == StopIter { break; } got.push(e); } print(got); }" % (base, base, base))
+    return "\n".join(L) + "\n"
+
+
+KEYS_EXTRA_GROUPS = [
+    ["100000000000000000000", "10000000000 * 10000000000"], ["200000000000000000000", "2 * 100000000000000000000"], ["400000000000000000000"],
+    ["9223372036854775808", "9223372036854775807 + 1"], ["-9223372036854775808"], ["18446744073709551616"], ["1 / 0", "2 / 0"], ["-1 / 0"],
+    ["(2, 1)"], ["(3, 3)"], ["(4, 4)"], ["(5, 5)"], ["(\"x\", (1, 2))"], ["((1, 2), \"x\")"], ["(1, 2, 3)"], ["(3, 2, 1)"], ["(1, 3, 2)"],
+    ["(0.5, 0.25)"], ["(0.25, 0.5)"], ["(\"a\", \"b\")"], ["(\"b\", \"a\")"],
+]
